@@ -422,6 +422,80 @@ frame_int!(frame_u8_n30, u8, i8, f32, 30, 33);
 frame_int!(frame_u8_n31, u8, i8, f32, 31, 34);
 frame_int!(frame_u8_n32, u8, i8, f32, 32, 35);
 
+/// the `channels()` iterator through the provided Iterator methods a caller may use on it
+/// (nth / skip / step_by / size_hint / count / last) - from a partially consumed state too
+pub mod channels_iter {
+    use super::*;
+    #[kani::proof]
+    #[kani::unwind(9)]
+    pub fn channels_iterator_adaptors() {
+        let a: [i16; 6] = kani::any();
+        let k: usize = kani::any();
+        kani::assume(k <= 6);
+        let mut it = a.channels();
+        for _ in 0..k {
+            it.next();
+        }
+        // size_hint / len agree with what is left
+        assert!(it.len() == 6 - k);
+        let (lo, hi) = it.size_hint();
+        assert!(lo <= 6 - k && (hi.is_none() || hi.unwrap() >= 6 - k), "size_hint brackets the remaining channels");
+        // nth is relative to the current position
+        let n: usize = kani::any();
+        kani::assume(n <= 7);
+        let mut it2 = it.clone();
+        let got = it2.nth(n);
+        assert!(got == if k + n < 6 { Some(a[k + n]) } else { None }, "nth(n) yields the n-th REMAINING channel");
+        if k + n < 6 {
+            assert!(it2.next() == if k + n + 1 < 6 { Some(a[k + n + 1]) } else { None });
+        }
+        // skip / step_by / count / last
+        let mut sk = it.clone().skip(1);
+        assert!(sk.next() == if k + 1 < 6 { Some(a[k + 1]) } else { None });
+        let mut st = a.channels().step_by(2);
+        assert!(st.next() == Some(a[0]) && st.next() == Some(a[2]) && st.next() == Some(a[4]) && st.next().is_none());
+        assert!(it.clone().count() == 6 - k);
+        assert!(it.clone().last() == if k < 6 { Some(a[5]) } else { None });
+        // a bare sample's channels(): exactly one item, then None for good, also through nth
+        let s: i16 = kani::any();
+        let mut ms = Frame::channels(s);
+        assert!(ms.next() == Some(s));
+        assert!(ms.nth(0).is_none() && ms.next().is_none());
+        kani::cover!(k == 2 && n == 1, "nth after partial consumption");
+        kani::cover!(true, "end");
+    }
+}
+
+pub mod channels_ref_iter {
+    use super::*;
+    #[kani::proof]
+    #[kani::unwind(10)]
+    pub fn channels_ref_mut_double_ended() {
+        let mut a: [i16; 4] = kani::any();
+        let orig = a;
+        {
+            let mut r = a.channels_ref();
+            assert!(r.len() == 4 && r.size_hint() == (4, Some(4)));
+            assert!(r.next() == Some(&orig[0]));
+            assert!(r.next_back() == Some(&orig[3]), "next_back yields the last channel");
+            assert!(r.len() == 2);
+            assert!(r.next_back() == Some(&orig[2]) && r.next() == Some(&orig[1]));
+            assert!(r.next().is_none() && r.next_back().is_none());
+        }
+        {
+            let mut m = a.channels_mut();
+            assert!(m.len() == 4);
+            *m.next_back().unwrap() = 7;
+            *m.next().unwrap() = 9;
+            assert!(m.len() == 2 && m.size_hint() == (2, Some(2)));
+        }
+        assert!(a == [9, orig[1], orig[2], 7], "writes through channels_mut land on the first / last channel");
+        let s: i16 = kani::any();
+        assert!(Frame::channels_ref(&s).next_back() == Some(&s) && Frame::channels_ref(&s).len() == 1);
+        kani::cover!(true, "end");
+    }
+}
+
 // every integer format at N = 2 (u8 is above)
 frame_int!(frame_i8_n2, i8, i8, f32, 2, 5);
 frame_int!(frame_i16_n2, i16, i16, f32, 2, 5);
